@@ -192,7 +192,9 @@ def run_case(case, keep_dir=None):
                 post_body = None
                 if r['method'] == 'GET' and rng.random() < 0.15:
                     post_body = bytes(rng.choice(b'abc=&%20') for _ in range(rng.choice([0, 1, 17, 300, 5000, 9000])))
-                responses.append({'pieces': pieces_for(rng, r, case['seg_mode']), 'then': r['then'],
+                # (a case that ends with a silent server runs under a real-time read timeout: its other exchanges are delivered
+                # whole, a byte-wise delivery of a long line could take longer than that timeout)
+                responses.append({'pieces': pieces_for(rng, r, 'whole' if case.get('stall_last_at') else case['seg_mode']), 'then': r['then'],
                                   'method': r['method'], 'url': url, 'post_body': post_body})
                 if case.get('stall_last_at') and r is seq[-1] and rnd_index == len(rounds) - 1:
                     responses[-1]['pieces'] = [r['wire'][:case['stall_last_at']]]
